@@ -483,6 +483,11 @@ pub fn run(rep: &Report) {
     random_fn_plane(rep, if thorough { 20_000_000 } else { 400_000 });
     ins_plane(rep, if thorough { 4000 } else { 60 }, false, rep.seed ^ 0xABCD);
     source_plane(rep, if thorough { 400 } else { 10 }, false, rep.seed ^ 0x1234);
+    crate::insplane::mixed_history(rep, if thorough { 40_000 } else { 500 }, 60, rep.seed ^ 0x141, "C01 among all instruction families", "ins", &|i| match i {
+        Ins::Alu2(op, ..) => ALL_ARITH2.contains(op),
+        Ins::Un(op, _) => matches!(op, Un::Inc | Un::Dec | Un::Neg),
+        _ => false,
+    });
     crate::insplane::history_plane(rep, if thorough { 40_000 } else { 600 }, 120, rep.seed ^ 0x41, false, "C01 lock-step history", "ins", &|rng| {
         // the whole ADD..NEG family in every operand form, between neighbours that share the grammar's unary
         // rules (MUL/DIV in register and memory forms), flag setters and register loads
